@@ -113,6 +113,17 @@ def run(ctx):
               'wit': [[bytes([b]), bytes([b])]], 'locktime': 0}
         raws.append(('boundary', txgen.ser_tx(tx), False))
 
+    # boundary: CompactSize thresholds of every length prefix (script, scriptSig, witness item; thorough: counts)
+    for ln in (252, 253, 254, 65534, 65535, 65536):
+        nop = b'\x61' * ln
+        raws.append(('boundary-len', txgen.ser_tx({'version': 1, 'ins': [(b'\x22' * 32, 1, b'', 0xfffffffe)], 'outs': [(5000, nop)], 'wit': None, 'locktime': 7}), False))
+        raws.append(('boundary-len', txgen.ser_tx({'version': 1, 'ins': [(b'\x22' * 32, 1, nop, 0xfffffffe)], 'outs': [(5000, b'\x51')], 'wit': None, 'locktime': 7}), False))
+        raws.append(('boundary-len', txgen.ser_tx({'version': 2, 'ins': [(b'\x22' * 32, 1, b'', 0xfffffffe)], 'outs': [(5000, b'\x00\x14' + b'\x33' * 20)],
+                                                   'wit': [[nop, b'\x02' + b'\x44' * 32]], 'locktime': 7}), False))
+    if T:
+        for cnt in (65534, 65535, 65536):
+            raws.append(('boundary-count', txgen.ser_tx({'version': 1, 'ins': [(b'\x22' * 32, 1, b'', 0xfffffffe)], 'outs': [(1, b'\x51')] * cnt, 'wit': None, 'locktime': 0}), False))
+
     chk = TxChecker(ctx)
     refused = 0
     for kind, raw, std in raws:
